@@ -347,8 +347,14 @@ func (c *ClusterInfo) syncEndpoints(servers []proxyv1alpha1.UpstreamClusterServe
 	added := wantedEPs.Diff(currentEPs)
 
 	if added.Len() > 0 || deleted.Len() > 0 {
-		// servers changed, reset loadbalancer
-		c.loadbalancer = sync.Map{}
+		// servers changed, reset loadbalancer.
+		// Pop() uses this map concurrently, so it has to be emptied in place: assigning a
+		// new sync.Map would overwrite the mutex a concurrent LoadOrStore is holding
+		// ("fatal error: sync: unlock of unlocked mutex").
+		c.loadbalancer.Range(func(key, _ interface{}) bool {
+			c.loadbalancer.Delete(key)
+			return true
+		})
 	}
 
 	deleted.Range(func(index int, elem interface{}) bool {
